@@ -31,7 +31,10 @@ type Case struct {
 	LS2  *gen.LS2Spec        `json:"ls2,omitempty"`
 	Meta *gen.MetaSpec       `json:"meta,omitempty"`
 	ELS  *gen.ELSSpec        `json:"els,omitempty"`
-	// SigMode: 0 genuine outer signature, 1 random bytes, 2 made by an attacker key of the same type
+	// SigMode: 0 genuine outer signature, 1 random bytes, 2 made by an attacker key of the same type,
+	// 3 made by a key that appears elsewhere in the structure but is not the one the specification
+	// prescribes: the LeaseSet's revocation key; the destination key although a transient key is
+	// attached (LeaseSet2 / MetaLeaseSet / EncryptedLeaseSet); another key for a RouterInfo
 	SigMode int `json:"sig_mode"`
 	// LibSigned: the base is built and signed by the library's own constructor
 	// (then edited); catches a verifier that is lenient in the same way the signer is
@@ -173,7 +176,17 @@ func check(c Case, r *ev.Rec) error {
 		return verdict(c, r, "RouterInfo.VerifySignature", success, auth, genuine, dm.Ident.SigType == 7, in, derr)
 	case "ls":
 		m, _ := c.LS.Build()
-		if c.SigMode != 0 {
+		if c.SigMode == 3 {
+			if rk := model.NewSignKey(m.Dest.SigType, c.LS.Seed^0x5e); rk != nil { // the key in the signing_key field
+				m.Sig = rk.Sign(m.SignedPart())
+				r.Class("ls:signed-by-revocation-key")
+				if len(m.Leases) == 0 {
+					r.Class("ls:signed-by-revocation-key,no-leases")
+				}
+			} else {
+				m.Sig = attackerSig(m.Dest.SigType, c.LS.Seed, m.SignedPart(), 2)
+			}
+		} else if c.SigMode != 0 {
 			m.Sig = attackerSig(m.Dest.SigType, c.LS.Seed, m.SignedPart(), c.SigMode)
 		}
 		in = applyEdits(orLib(c, r, m.Encode()), c.Edits)
@@ -187,11 +200,13 @@ func check(c Case, r *ev.Rec) error {
 		auth := derr == nil && model.Verify(dm.Dest.SigType, dm.Dest.Sig, in[:n-len(dm.Sig)], dm.Sig)
 		return verdict(c, r, "LeaseSet.Verify", success, auth, genuine, true, in, derr)
 	case "ls2":
-		m, _, outer := c.LS2.Build()
-		if c.SigMode != 0 {
+		m, dk, _ := c.LS2.Build()
+		if c.SigMode == 3 && m.Header.Offline != nil && dk != nil {
+			m.Sig = dk.Sign(m.SignedPart())
+			r.Class("ls2:signed-by-destination-key-despite-transient")
+		} else if c.SigMode != 0 {
 			m.Sig = attackerSig(m.OuterSigType(), c.LS2.Header.Dest.KeySeed, m.SignedPart(), c.SigMode)
 		}
-		_ = outer
 		in = applyEdits(orLib(c, r, m.Encode()), c.Edits)
 		ls, rem, err := lease_set2.ReadLeaseSet2(in)
 		if err != nil {
@@ -208,8 +223,11 @@ func check(c Case, r *ev.Rec) error {
 		}
 		return verdict(c, r, "LeaseSet2.Verify", success, auth, genuine, true, in, derr)
 	case "meta":
-		m, _, _ := c.Meta.Build()
-		if c.SigMode != 0 {
+		m, dk, _ := c.Meta.Build()
+		if c.SigMode == 3 && m.Header.Offline != nil && dk != nil {
+			m.Sig = dk.Sign(m.SignedPart())
+			r.Class("meta:signed-by-destination-key-despite-transient")
+		} else if c.SigMode != 0 {
 			m.Sig = attackerSig(m.OuterSigType(), c.Meta.Header.Dest.KeySeed, m.SignedPart(), c.SigMode)
 		}
 		in = applyEdits(m.Encode(), c.Edits)
@@ -228,8 +246,11 @@ func check(c Case, r *ev.Rec) error {
 		}
 		return verdict(c, r, "MetaLeaseSet.Verify", success, auth, genuine, true, in, derr)
 	case "els":
-		m, _, _ := c.ELS.Build()
-		if c.SigMode != 0 {
+		m, dk, _ := c.ELS.Build()
+		if c.SigMode == 3 && m.Offline != nil && dk != nil {
+			m.Sig = dk.Sign(m.SignedPart())
+			r.Class("els:signed-by-blinded-key-despite-transient")
+		} else if c.SigMode != 0 {
 			m.Sig = attackerSig(m.OuterSigType(), c.ELS.KeySeed, m.SignedPart(), c.SigMode)
 		}
 		in = applyEdits(orLib(c, r, m.Encode()), c.Edits)
@@ -436,7 +457,7 @@ func genCase(t *rapid.T) Case {
 		c.LS2 = &s
 		c.OffKey = rapid.SampledFrom([]int{0, 0, 1, 2}).Draw(t, "offkey")
 	}
-	c.SigMode = rapid.SampledFrom([]int{0, 0, 0, 1, 2}).Draw(t, "sigmode")
+	c.SigMode = rapid.SampledFrom([]int{0, 0, 0, 1, 2, 3}).Draw(t, "sigmode")
 	c.LibSigned = rapid.IntRange(0, 2).Draw(t, "libsigned") == 0
 	if rapid.IntRange(0, 3).Draw(t, "edit") > 0 {
 		c.Edits = editsG(t, rapid.IntRange(1, 3).Draw(t, "nedits"), hotOffsets)
@@ -459,6 +480,7 @@ func TestProp(t *testing.T) {
 	ev.R().Floor("ls2:donor-verified-first", 20)
 	ev.R().Floor("els:donor-verified-first", 20)
 	ev.R().Floor("meta:donor-verified-first", 10)
+	ev.R().Floor("ls:signed-by-revocation-key,no-leases", 20)
 	ev.R().Floor("ls2:offline", 50)
 	ev.R().Floor("els:offline", 50)
 	ev.R().Floor("meta:offline", 50)
